@@ -49,6 +49,8 @@ pub struct CaseReport {
     pub harness_error: Option<String>,
     /// the wall-clock watchdog fired: the run never came back
     pub hung: bool,
+    /// ... and the run thread was asleep in the kernel, not spinning
+    pub blocked_unshimmed: bool,
     pub outcome_class: String,
     pub shape_hash: u64,
     pub inter_hash: u64,
@@ -89,7 +91,13 @@ pub fn gen_case(prop: &str, run_seed: u64) -> Case {
                 Case::Graph(ide_layer::gen_graph(&mut rng, true))
             }
         }
-        "C07" => Case::Hist(ide_layer::gen_hist(&mut rng)),
+        "C07" => {
+            if rng.chance(1, 4) {
+                Case::Server { scenario: gen::gen_hist_live(&mut rng), sched_seed }
+            } else {
+                Case::Hist(ide_layer::gen_hist(&mut rng))
+            }
+        }
         _ => panic!("unknown property {prop}"),
     }
 }
@@ -142,6 +150,35 @@ fn gen_graph_live(rng: &mut Rng) -> Scenario {
         if rng.chance(1, 2) {
             ops.push(Op::Sync);
         }
+        // the disk changes at a quiescent point (files of the graph appear / disappear); the
+        // next notification must see the new graph
+        if step == 0 {
+            if let Some(second) = &g.second_hidden {
+                if !matches!(ops.last(), Some(Op::Sync)) {
+                    ops.push(Op::Sync);
+                }
+                let mut g2 = g.clone();
+                g2.hidden = second.clone();
+                for i in 0..g.files.len() {
+                    let p = g.files[i].path.clone();
+                    let was = !g.hidden.contains(&i);
+                    let is = !second.contains(&i);
+                    if was && !is && !open.contains(&i) {
+                        ops.push(Op::DiskRemove { path: p });
+                    } else if !was && is {
+                        ops.push(Op::DiskWrite { path: p, text: g.render(i).0 });
+                    }
+                }
+            }
+        }
+    }
+    if g.second_hidden.is_some() && n_notifs == 1 {
+        // make sure something re-selects the root after the disk change
+        let path = g.files[g.root].path.clone();
+        version += 1;
+        let text = format!("{}class V_{version};\n", g.render(g.root).0);
+        ops.push(Op::Change { path: path.clone(), text });
+        ops.push(Op::Request { kind: crate::scenario::ReqKind::DocumentLink, path, offset: 0 });
     }
     let mut knobs = gen::sample_knobs(rng, 16, false);
     knobs.include_dir = g.include_dir.clone();
@@ -300,6 +337,13 @@ pub fn judge_server(prop: &str, scenario: &Scenario, res: &ExecResult, report: &
             let judged = std::panic::catch_unwind(std::panic::AssertUnwindSafe(|| match prop {
                 "C11" => oracle::check_c11(&model, res, &mut stats),
                 "C12" => oracle::check_messages("C12", scenario, &model, res, false, &mut stats),
+                "C07" => {
+                    let mut v = oracle::check_messages("C07", scenario, &model, res, true, &mut stats);
+                    for x in v.iter_mut() {
+                        x.class = format!("history-dependent:server:{}", x.class);
+                    }
+                    v
+                }
                 "C09" => oracle::check_messages("C09", scenario, &model, res, true, &mut stats),
                 _ => vec![],
             }));
@@ -360,6 +404,9 @@ pub fn run_case(prop: &str, case: &Case, plan: Option<&[Option<u16>]>) -> CaseRe
             c.insert("unreadable_target".into(), stats.unreadable_targets);
             c.insert("include_dir_hit".into(), stats.include_dir_hits);
             c.insert("nested_include".into(), stats.nested_includes);
+            c.insert("root_reselected_after_disk_change".into(), stats.reselect);
+            c.insert("file_appeared".into(), stats.file_appeared);
+            c.insert("file_disappeared".into(), stats.file_disappeared);
             c.insert("disk_read".into(), stats.reads_total);
             let mut h = StableHasher::new();
             h.u64(report.shape_hash);
